@@ -312,6 +312,10 @@ m("multiframe_least_wcet_all_frames", "src/wcet/multiframe.rs",
   "            .take(n)\n            .copied()\n            .min()",
   "            .skip(n.min(1) - n.min(1))\n            .take(n)\n            .copied()\n            .max()",
   ["C14"], note="least_wcet returns the largest of the first n frames")
+m("multiframe_least_wcet_nth_frame", "src/wcet/multiframe.rs",
+  "            .take(n)\n            .copied()\n            .min()",
+  "            .skip(n.saturating_sub(1))\n            .take(1)\n            .copied()\n            .min()",
+  ["C04", "C14"], note="Multiframe::least_wcet returns the n-th frame instead of the cheapest of the first n (too large after a cheap frame): the ECRTS'19 interference window A + R - own_wcet + 1 shrinks; needs Multiframe cost models in the ROS 2 workloads (added in seeding round 11)")
 
 # ---- semantics-preserving refactorings: every check must stay silent -------------------------
 m("refactor_fp_all_offsets", "src/fixed_priority/fully_preemptive.rs",
